@@ -82,15 +82,15 @@ def execSearch (fs : FSnap) (cfg : Config) (args : List Str) : Outcome :=
   | .error (.unsupported w) => .unsupported w
   | .ok q =>
     let p := Plan.of q cfg
-    let st0 : WSt := { out := fmtHeader q.format }
+    let st0 : WSt := { res := { out := fmtHeader q.format } }
     match searchRoots p fs q.roots st0 with
     | .error (.exit2 _ out) => .exit 2 out [] false []
     | .error (.unsupported w) => .unsupported w
     | .ok st =>
-      match finish p st with
-      | .error (.exit2 _ out) => .exit 2 out st.errPaths false []
+      match finish p st.res with
+      | .error (.exit2 _ out) => .exit 2 out st.walk.errPaths false []
       | .error (.unsupported w) => .unsupported w
-      | .ok (out, inex, ties) => .exit (if st.errCount > 0 then 1 else 0) out st.errPaths inex ties
+      | .ok (out, inex, ties) => .exit (if st.walk.errCount > 0 then 1 else 0) out st.walk.errPaths inex ties
 
 /-- `main`: only plain queries are modelled (no `help`/`version`/`-i`/`-c`/`nocolor` pre-processing) -/
 def runMain (fs : FSnap) (cfg : Config) (argv : List Str) : Outcome :=
